@@ -4,6 +4,7 @@ mod common;
 mod engine;
 mod gen;
 mod props;
+mod targets;
 mod wire;
 
 use std::path::PathBuf;
@@ -15,6 +16,7 @@ macro_rules! for_props {
         for_props!(@go $id, $p, $body, [
             props::c01::C01,
             props::c02::C02,
+            props::c09::C09,
             props::c12::C12,
             props::c14::C14,
             props::c03::C03,
@@ -46,6 +48,20 @@ fn main() {
         std::process::exit(2);
     }
     let cmd = args[1].as_str();
+    if cmd == "fuzz-seeds" {
+        // write a valid encoding per target and selector, prefixed with the target byte
+        let dir = PathBuf::from(&args[2]);
+        std::fs::create_dir_all(&dir).expect("seed dir");
+        for (t, name) in targets::TARGETS.iter().enumerate() {
+            for sel in 0u8..12 {
+                let mut v = vec![t as u8];
+                v.extend_from_slice(&props::c09::valid_seed(name, sel));
+                std::fs::write(dir.join(format!("{name}-{sel}")), v).expect("write seed");
+            }
+        }
+        println!("seeds written");
+        return;
+    }
     let id = args[2].clone();
     let tier = Tier::parse(&arg_value(&args, "--tier").unwrap_or_else(|| std::env::var("VERIF_TIER").unwrap_or_default()));
     match cmd {
